@@ -140,7 +140,7 @@ func c10RunCfg(r *core.Run, kind string, n int, o storedrv.Opts, name string, sa
 
 // C10: every bundled store behaves as one append-only, resumable log.
 func c10(r *core.Run) {
-	r.Rule = "exhaustive TLC run of MCLog (every store satisfying Log.tla gives a gap-free, repeat-free chain of reads for all limits and resume points: next tokens and event tokens, fresh or reused tokens, partial pages); random call sequences (append with rich type/JSON/timestamp inputs, read with limits -1..5, streaming reads, save/load offsets, resuming from every token handed out, two separately created stores per run) against the real memory, SQLite (file, :memory:, batched streams) and durable-streams stores, recorded and validated against LogTrace.tla; a case is one (store kind, sequence)"
+	r.Rule = "exhaustive TLC run of MCLog (every store satisfying Log.tla gives a gap-free, repeat-free chain of reads for all limits and resume points: next tokens and event tokens, fresh or reused tokens, partial pages); random call sequences (append with rich type/JSON/timestamp inputs, read with limits -1..5, streaming reads, save/load offsets, resuming from every token handed out, one call in twelve made with a cancelled context - it works or fails without effect, and a refused SaveOffset is retried -, two separately created stores per run) against the real memory, SQLite (file, :memory:, batched streams) and durable-streams stores, recorded and validated against LogTrace.tla; a case is one (store kind, sequence)"
 	r.MustHold(core.TLCOpts{Module: "MCLog", Timeout: 10 * time.Minute})
 	// the bundled stores written like their code (LogImpl.tla): the memory store satisfies the contract's
 	// consequences; the listed findings D5 and D8 are the design-level counterexamples of the other two
@@ -148,7 +148,7 @@ func c10(r *core.Run) {
 	r.MustFail(core.TLCOpts{Module: "LogImpl", Config: "LogImpl_sqlite.cfg"}, "LexIncreasing")
 	r.MustFail(core.TLCOpts{Module: "LogImpl", Config: "LogImpl_ds.cfg"}, "NoGapNoRepeat")
 	n := r.Pick(40, 600)
-	base := storedrv.Opts{Ops: 70, Limits: []int{-1, 0, 1, 2, 3, 5}, EventToks: true, Streams: true, Zones: true, SecondsZone: true, Concurrent: 7}
+	base := storedrv.Opts{Ops: 70, Limits: []int{-1, 0, 1, 2, 3, 5}, EventToks: true, Streams: true, Zones: true, SecondsZone: true, Concurrent: 7, Cancelled: 0.08}
 	for i, kind := range storedrv.Kinds {
 		o := base
 		if kind == "durable" {
